@@ -7,9 +7,17 @@ import subprocess
 from . import core
 
 
-def run_selene(cwd, args, stdin=None, timeout=120, env=None):
+def run_selene(cwd, args, stdin=None, timeout=120, env=None, nofile=None):
+    """nofile: soft limit on open file descriptors for the run (None = inherited)"""
+    pre = None
+    if nofile is not None:
+        import resource
+
+        def pre():
+            hard = resource.getrlimit(resource.RLIMIT_NOFILE)[1]
+            resource.setrlimit(resource.RLIMIT_NOFILE, (nofile, hard))
     p = subprocess.run([core.SELENE_BIN] + args, cwd=cwd, input=stdin, stdout=subprocess.PIPE,
-                       stderr=subprocess.PIPE, timeout=timeout, env=env or core.ENV)
+                       stderr=subprocess.PIPE, timeout=timeout, env=env or core.ENV, preexec_fn=pre)
     return p.returncode, p.stdout.decode("utf-8", "replace"), p.stderr.decode("utf-8", "replace")
 
 
